@@ -8,11 +8,13 @@ package ice
 // forged message, injected at random points of random session histories (also after Restart).
 
 import (
+	"context"
 	"fmt"
 	"net/netip"
 	"sort"
 	"strings"
 	"testing"
+	"time"
 
 	"github.com/pion/stun/v3"
 )
@@ -108,7 +110,7 @@ func (s *vfSession) forgeStep(x *vfSide) { //nolint:cyclop,maintidx
 	// the peer's real username is then NOT '<local ufrag>:<remote ufrag>' and no response can verify
 	remoteKnown := sn.RemoteUfrag != ""
 	f.Key = []string{"correct", "correct", "other-side", "wrong", "oldgen", "absent"}[rng.IntN(6)]
-	f.Tx = []string{"fresh", "outstanding", "answered", "oldgen"}[rng.IntN(4)]
+	f.Tx = []string{"fresh", "outstanding", "answered", "oldgen", "expired"}[rng.IntN(5)]
 	f.Src = []string{"known", "known", "unknown"}[rng.IntN(3)]
 	f.Finger = rng.IntN(4) != 0
 	if s.forgeValidTCP {
@@ -231,6 +233,30 @@ func (s *vfSession) forgeStep(x *vfSide) { //nolint:cyclop,maintidx
 			}
 		}
 	}
+	if f.Tx == "expired" {
+		// a request that is still listed as outstanding but was sent longer ago than a transaction lives (the entry is
+		// backdated by 5 s): everything right - signature, transaction id, source - except that the answer comes too late
+		f.Tx = "fresh"
+		if f.Kind == "success" && pickTx(func(d *vfDgram) bool { return pendingSet[d.Stun.TxID] }) {
+			backdated := false
+			txid := tx
+			_ = x.a.loop.Run(x.a.loop, func(context.Context) {
+				for i := range x.a.pendingBindingRequests {
+					if x.a.pendingBindingRequests[i].transactionID == txid {
+						x.a.pendingBindingRequests[i].timestamp = x.a.pendingBindingRequests[i].timestamp.Add(-5 * time.Second)
+						backdated = true
+					}
+				}
+			})
+			if backdated {
+				txKind, f.Tx = "expired", "expired"
+				f.Key, src, f.Src, dst = "correct", outstandingDst, "request-destination", outstandingSock
+				// the snapshots were taken before the backdating; take them again (timestamps are not part of them, but be exact)
+				beforeExact, sn = x.fullSnap("exact")
+				beforePairs, _ = x.fullSnap("pairs")
+			}
+		}
+	}
 	switch f.Tx {
 	case "outstanding":
 		if pickTx(func(d *vfDgram) bool { return pendingSet[d.Stun.TxID] }) {
@@ -270,7 +296,9 @@ func (s *vfSession) forgeStep(x *vfSide) { //nolint:cyclop,maintidx
 	if txOldGen && txKind == "outstanding" {
 		txKind = "oldgen" // still listed as outstanding although its generation ended: must be inert all the same
 	}
-	f.Tx = txKind
+	if f.Tx != "expired" {
+		f.Tx = txKind
+	}
 	// build
 	var typ stun.MessageType
 	switch f.Kind {
@@ -579,6 +607,16 @@ func vfC02Run(e *vfEnv, r *vfResult, idx int) {
 	seedTCP()
 	phase(40 + s.rng.IntN(120))
 	s.fairSuffixC06(&pending, 3)
+	// application data in both directions: afterwards the agents hold a cache of validated data sources, and STUN-looking
+	// junk from such an address is still junk
+	for _, x := range s.sides() {
+		if sn := x.snapshot(); sn.Err == nil && sn.Selected != "" && x.conn != nil {
+			s.step("write", x.name, 0, "application data")
+			_, _ = x.conn.Write([]byte("\x90application data from " + x.name))
+			s.r.count("c02_sessions_with_application_data", 1)
+		}
+	}
+	s.deliverAll(true, 50)
 	phase(20 + s.rng.IntN(40))
 	if withRestart && s.broken == "" {
 		for _, x := range s.sides() {
